@@ -103,9 +103,9 @@ func FromString[T fixed.Dx](str string) (Int[T], error) {
 		if _, ok := value.SetString(parts[0], 10); !ok {
 			return Int[T]{}, errs.Newf("invalid value: %s", str)
 		}
-		if value.Sign() < 0 {
+		if value.Sign() < 0 || parts[0][0] == '-' {
 			neg = true
-			value.Neg(value)
+			value.Abs(value)
 		}
 		value.Mul(value, big.NewInt(t.Multiplier()))
 	}
